@@ -797,10 +797,9 @@ pub(crate) fn run(
                                     let end = inner_slots[(i + 1) * 2 + 1].unwrap();
                                     state.save(slot, start.get());
                                     state.save(slot + 1, end.get());
-                                } else {
-                                    state.save(slot, usize::MAX);
-                                    state.save(slot + 1, usize::MAX);
                                 }
+                                // A group that did not participate in this call keeps the
+                                // value it had before (e.g. from a previous loop iteration)
                             }
                             ix = inner_slots[1].unwrap().get();
                         } else {
